@@ -15,7 +15,7 @@ def big_products(ctx):
     interpreted engine does not (known finding K2), so these inputs are only compared in compiled mode — against the model
     (unbounded integers) and, on instantiated boxes, against exact Python arithmetic"""
     rng = random.Random(ctx["seed"] + 505)
-    n_cases = 300 if ctx["tier"] == "quick" else 6000
+    n_cases = 300 * max(nv.boost("alg:affine_eq"), nv.boost("alg:affine_leq"), nv.boost("alg:affine_geq")) if ctx["tier"] == "quick" else 6000
     cases = []
     for _ in range(n_cases):
         alg = rng.choice(["affine_eq", "affine_eq", "affine_leq", "affine_geq"])
